@@ -382,7 +382,8 @@ Section WithConfig.
                       let key := cls n in
                       let key' := if registered key s then n else key in
                       reg key' x (if registered key s then add_ev EvOverwrite s else s) in
-          (* lines 904-921 *)
+          (* lines 904-921; since the fix of F02f only when self references are NOT allowed *)
+          if allow_self then (x, s1) else
           match find (fun p => str_eqb (hd [] p) n && str_eqb (last p []) n && nonempty_list p) (cycles s1) with
           | Some p =>
             if Nat.eqb (length p) 2 || (Nat.eqb (length p) 3 && containsb s_mark_Item (nth 1 p [])) then
@@ -401,8 +402,11 @@ Section WithConfig.
         match name with
         | Some n =>
           if nonempty n then
+            (* since fix 635317b: names declared in components.schemas are exempt from the "pure reference" shortcut,
+               so a top-level alias is registered under its own name as the resolved target object *)
+            let declared_name := match alookup n S with Some _ => true | None => false end in
             let pure_ref := match i_name r with
-                            | Some rn => nonempty rn && negb (str_eqb rn n) && registered rn s1
+                            | Some rn => nonempty rn && negb (str_eqb rn n) && registered rn s1 && negb declared_name
                             | None => false
                             end in
             if pure_ref then (r, s1)
@@ -487,14 +491,33 @@ Section WithConfig.
     | Datatypes.S f => step (parse_schema f) name nd s
     end.
 
-  (* build_schemas: parse every declared schema that is not registered yet, then the post-condition check *)
-  Fixpoint build (fuel : nat) (l : spec) (s : st) : st :=
+  (* build_schemas (since the fix of F02d): a depth placeholder stored while parsing ANOTHER schema does not count as
+     parsed; passes are repeated (at most len(raw_schemas) times) over the names still pending at the start of the
+     pass; before a schema is (re-)parsed its tracker state is dropped (schema_states.pop: modelled as NOT_STARTED,
+     which is what a missing key reads as). *)
+  Definition unparsed (k : str) (s : st) : bool :=
+    match alookup k (parsed s) with Some e => i_depthm e | None => true end.
+  Definition pending_b (s : st) (p : str * node) : bool := unparsed (fst p) s && unparsed (cls (fst p)) s.
+
+  Fixpoint build_pass (fuel : nat) (l : spec) (s : st) : st :=
     match l with
     | [] => s
     | (n, nd) :: r =>
-      if registered n s || registered (cls n) s then build fuel r s
-      else build fuel r (snd (parse_schema fuel (Some n) nd s))
+      if unparsed n s && unparsed (cls n) s
+      then build_pass fuel r (snd (parse_schema fuel (Some n) nd (set_state n NotStarted s)))
+      else build_pass fuel r s
     end.
+
+  Fixpoint build_iter (k : nat) (fuel : nat) (s : st) : st :=
+    match k with
+    | O => s
+    | Datatypes.S k' =>
+      match filter (pending_b s) S with
+      | [] => s
+      | pend => build_iter k' fuel (build_pass fuel pend s)
+      end
+    end.
+  Definition build (fuel : nat) (s : st) : st := build_iter (length S) fuel s.
   Definition all_present (s : st) : bool :=
     forallb (fun p => registered (fst p) s || registered (cls (fst p)) s) S.
 End WithConfig.
@@ -504,7 +527,7 @@ End WithConfig.
 Definition fuel_for (max_depth : N) : nat := N.to_nat max_depth + 50.
 
 Definition parse_doc (max_depth : N) (S : spec) : st :=
-  build max_depth S (fuel_for max_depth) S st0.
+  build max_depth S (fuel_for max_depth) st0.
 
 (* ------------------------------------------------------------------ observation (the same function the harness applies
    to IRSpec.schemas): a property designates a model by name when its `type` is a schema name (holder) or when it is a
@@ -614,8 +637,10 @@ Definition no_capture (S : spec) : bool := nodup_strs (all_named S).
 Definition guard_F02a (s : st) : bool := negb (has_ev EvCycleStored s) && negb (has_ev EvShadowed s).
 Definition guard_F02b (S : spec) : bool := no_capture S.
 Definition guard_F02c (s : st) : bool := negb (has_ev EvCycle s).
+(* since the fix of F02d a DECLARED schema cut off at the depth limit is parsed again from depth 0 by build_schemas, so
+   the placeholder no longer replaces its model; the placeholder object itself is still what the reference that hit
+   the limit got (lossy when that reference is an allOf parent) and inline (synthetic) names are never re-parsed *)
 Definition guard_F02d (s : st) : bool := negb (has_ev EvDepth s).
-Definition guard_F02f (s : st) : bool := negb (has_ev EvMarked s).
 
 (* ------------------------------------------------------------------ the property's own statement: declared fields.
    INDEPENDENT reference semantics (no tracker, no registry): the fields of a schema are its own properties plus those
